@@ -429,6 +429,14 @@ class World:
                     raise Divergence("copy-geometry-differs",
                                      f"after copy (options {sorted(opts)}) source geometry {_geom(e)} copy {_geom(new)}", "C12")
             self.bind_copy(int(a["s"]), new, a, pre)
+        elif act == "CopyIntoSelf":
+            import sys
+            limit = sys.getrecursionlimit()
+            sys.setrecursionlimit(250)      # an endless recursion is cut short (it creates an entity per level)
+            try:
+                self.ent(a["s"]).copy(parent=self.ent(a["p"]))
+            finally:
+                sys.setrecursionlimit(limit)
         elif act == "Copy2":
             self.copy2(a)
         elif act == "Copy2Data":
